@@ -24,6 +24,15 @@ CHECKS = {
             'values; then is, <<, >>, union, intersect, except, root, innermost, outermost on nodes of that tree are compared with the set model.',
             'Trusted: rv/gen_xml.py spec and twin builders, rv/models/xdm.py; relative order among the namespace nodes of one element unconstrained.',
             'DESIGN.md section 4 (C02)'),
+    'C05': ('exploration',
+            'before/after snapshot monitors (input tree, caller variable values incl. timezones / map and array contents, namespaces, context variable table) + reused-vs-fresh repeatability oracle over evaluation histories + lexical-scope templates',
+            'Every evaluation of a corpus of expression templates (all call forms, ElementTree and lxml, implicit timezones) is bracketed by deep '
+            'snapshots of everything the caller handed in; one Selector and one parsed token are reused along histories of 3-7 evaluations over '
+            'several documents, context items, variable maps and timezones and each answer is compared with a freshly parsed expression on a '
+            'fresh context; binder templates (for/let/some/every/inline-function and HOF parameters, shadowing, re-binding after closure '
+            'creation) with and without an outer binding of the same name have outcomes known from their lexical structure.',
+            'Trusted: the structural value description (rv/engine.describe + timezone fields); expressions depending on the current time or randomness excluded.',
+            'DESIGN.md section 4 (C05)'),
     'C06': ('exploration',
             'runtime reference-model monitor: exact-rational / IEEE model of F&O arithmetic over a boundary-value cross product',
             'All six binary operators over the 4x4 numeric type matrix, unary +/-, abs/floor/ceiling/round/round-half-to-even with '
